@@ -23,10 +23,32 @@ def reg_adt(b):
 _LABELS = [0]
 
 
+def label_counter_fns(fx):
+    """the functions that hand out label numbers, by what they do: no parameter, a usize result, and a mutable static of the code
+    generator's crate in their body (fresh_labels::fresh_label on the pinned tree)"""
+    got = getattr(fx, "_label_counter_fns", None)
+    if got is None:
+        muts = {s["path"] for s in fx.statics if s["crate"] == "axcut2backend" and (s["mut"] or not s["freeze"])}
+        got = set()
+        for key, f in fx.fns.items():
+            if f["crate"] != "axcut2backend" or "{" in key or f["argc"] != 0 or f["locals"][0]["ty"] != "usize":
+                continue
+            for b in f["blocks"]:
+                for st in b["stmts"]:
+                    if st["k"] != "assign":
+                        continue
+                    rv = st["rv"]
+                    ops = [rv.get(k) for k in ("op", "a", "b")] + list(rv.get("ops", []))
+                    if any(isinstance(o, dict) and o.get("k") == "const" and (o.get("static") in muts or o.get("def") in muts) for o in ops):
+                        got.add(key)
+        fx._label_counter_fns = got
+    return got
+
+
 def label_hook(I, p, fr, t, args):
     """model of axcut2backend::fresh_labels::fresh_label (a `static mut` counter): a number distinct from all earlier ones"""
     ck = t.get("resolved_key") or t.get("callee_key") or ""
-    if ck.endswith("fresh_labels::fresh_label"):
+    if ck in label_counter_fns(I.fx):
         _LABELS[0] += 1
         return _LABELS[0]
     return NotImplemented
